@@ -543,7 +543,7 @@ def unit_reduce_hist(unit):
         base = (base * 2)[:n]
         for i in range(n):
             for j in range(n):
-                for first in ("same", "none"):
+                for first, third in (("same", False), ("none", False), ("same", True), ("none", True)):
                     agg.states += 1; agg.nontrivial += 1
                     for fn in fns:
                         agg.evals += 1; agg.transitions += 4; agg.compared += 1
@@ -559,9 +559,11 @@ def unit_reduce_hist(unit):
                                 v[i] = None; cur[i] = None
                             v[j] = None; cur[j] = None
                             # further write forms: one position named twice in one assignment (None-ness changing), slices and masks of None
-                            k_ = (i + j) % 4
+                            k_ = (i + j) % 4 if third else -1          # with and without a third write (identity reuse depends on how many there are)
                             other = base[(j + 1) % n]
-                            if k_ == 0:
+                            if k_ == -1:
+                                pass
+                            elif k_ == 0:
                                 v[[i, i]] = None; cur[i] = None
                             elif k_ == 1:
                                 v[[j, j]] = [None, other]; cur[j] = other
@@ -569,7 +571,8 @@ def unit_reduce_hist(unit):
                                 v[Vector([i, j, i])] = None; cur[i] = None; cur[j] = None
                             else:
                                 v[i:i + 2] = [None] * len(cur[i:i + 2]); cur[i:i + 2] = [None] * len(cur[i:i + 2])
-                            case["history"] = case["history"][:3] + [["v[[i, i]] = None", "v[[j, j]] = [None, x]", "v[Vector([i, j, i])] = None", "v[i:i+2] = None"][k_], fn]
+                            if third:
+                                case["history"] = case["history"][:3] + [["v[[i, i]] = None", "v[[j, j]] = [None, x]", "v[Vector([i, j, i])] = None", "v[i:i+2] = None"][k_], fn]
                             clean = [x for x in cur if x is not None]
                             if fn in ("min", "max") and not clean:
                                 continue
